@@ -39,6 +39,7 @@ RULES = {
     "D2": "dropped: tracing/log/println macros and debug_assert (no effect on contract state)",
     "R1": "`for &x in E {` -> `for x__r in E.iter() { let x = *x__r;`",
     "R2": "`for (i, x) in E.iter().enumerate() {` -> index while loop",
+    "R3": "`for (i, b) in X.iter_mut().enumerate() { *b .. }` / `for b in X.iter_mut()` -> index loop with X[i]",
     "R4": "`for i in (a..b).rev() {` -> descending while loop",
     "R7": "error-constructor expression `ParseError::X {..}` -> opaque `mk_err()`",
     "R9": "`E as <int>` -> `#[verifier::truncate] (E as <int>)` (Rust `as` is truncation)",
@@ -567,6 +568,32 @@ def build_item(cur, log):
             ed.insert(toks[lo_].end, lets)
             ed.insert(toks[lc_].start, f" {kv} += 1; ")
             log.append(("R2", where, text[toks[lk].start:toks[lo_].end]))
+    if "R3" in rules:
+        # `for (i, b) in X.iter_mut().enumerate() {..*b..}` / `for b in X.iter_mut() {..*b..}` -> index loop over X with X[i]
+        for n_, (lk, lo_, lc_) in enumerate(loops):
+            if toks[lk].text != "for": continue
+            hdr = text[toks[lk].start:toks[lo_].start]
+            m = re.match(r"for\s+\(\s*(\w+)\s*,\s*(\w+)\s*\)\s+in\s+(.+?)\.iter_mut\(\)\.enumerate\(\)\s*$", hdr, re.S)
+            m2 = re.match(r"for\s+(\w+)\s+in\s+(.+?)\.iter_mut\(\)\s*$", hdr, re.S)
+            if m: iv, bv, xe = m.group(1), m.group(2), m.group(3)
+            elif m2: iv, bv, xe = None, m2.group(1), m2.group(2)
+            else: continue
+            if any(x.kind == "ident" and x.text == "continue" for x in toks[lo_:lc_]):
+                raise ExtractError(f"unsupported-construct: {where}: `continue` inside a loop rewritten by R3")
+            kv = f"k__{n_}"
+            last = prev_code(toks, lo_)
+            ed.replace(toks[lk].start, toks[last].end, f"let mut {kv}: usize = 0; while {kv} < {xe}.len()")
+            if iv: ed.insert(toks[lo_].end, f" let {iv} = {kv};")
+            q = lo_ + 1
+            while q < lc_:
+                if toks[q].kind == "punct" and toks[q].text == "*":
+                    nx = next_code(toks, q)
+                    if nx is not None and toks[nx].kind == "ident" and toks[nx].text == bv:
+                        ed.replace(toks[q].start, toks[nx].end, f"{xe}[{kv}]")
+                        q = nx + 1; continue
+                q += 1
+            ed.insert(toks[lc_].start, f" {kv} += 1; ")
+            log.append(("R3", where, hdr.strip()))
     if "R4" in rules:
         for n_, (lk, lo_, lc_) in enumerate(loops):
             if toks[lk].text != "for": continue
